@@ -7,6 +7,7 @@ import (
 	"hash/fnv"
 	"os"
 	"path/filepath"
+	"runtime"
 	"runtime/metrics"
 	"sort"
 	"strconv"
@@ -311,6 +312,17 @@ type hangAbort struct{ res *Result }
 
 var curCase atomic.Pointer[Case]
 
+// lastBeat is the time of the last sign of progress (a case or a sub-run
+// starting). A shard that shows none for stallLimit is stuck somewhere no
+// scheduler watches (e.g. the world of the next case cannot be built because an
+// earlier faulted run leaked a process-wide resource).
+var lastBeat atomic.Int64
+
+const stallLimit = 420 * time.Second
+
+// Heartbeat records progress.
+func Heartbeat() { lastBeat.Store(time.Now().UnixNano()) }
+
 // CurrentCaseFile, when set, receives the case about to be executed.
 var CurrentCaseFile string
 
@@ -323,15 +335,29 @@ func startMemoryWatchdog(limit uint64, prop string, seed uint64, shard int, outD
 		for {
 			time.Sleep(50 * time.Millisecond)
 			metrics.Read(sample)
-			if sample[0].Value.Kind() != metrics.KindUint64 || sample[0].Value.Uint64() < limit {
+			over := sample[0].Value.Kind() == metrics.KindUint64 && sample[0].Value.Uint64() >= limit
+			stalled := time.Since(time.Unix(0, lastBeat.Load())) > stallLimit
+			if !over && !stalled {
 				continue
 			}
 			c := curCase.Load()
 			if c == nil || OnShardAbort == nil {
 				continue
 			}
-			fail := &Fail{Prop: prop, Oracle: "memory", Kind: "memory-blowup", Site: c.Scen,
-				Detail: fmt.Sprintf("while this case was executing the process grew to %d MiB (limit %d MiB): the code under test requested an absurd amount of memory, typically a slice sized by a wrong length or frequency", sample[0].Value.Uint64()>>20, limit>>20)}
+			var fail *Fail
+			if over {
+				fail = &Fail{Prop: prop, Oracle: "memory", Kind: "memory-blowup", Site: c.Scen,
+					Detail: fmt.Sprintf("while this case was executing the process grew to %d MiB (limit %d MiB): the code under test requested an absurd amount of memory, typically a slice sized by a wrong length or frequency", sample[0].Value.Uint64()>>20, limit>>20)}
+			} else {
+				buf := make([]byte, 1<<20)
+				buf = buf[:runtime.Stack(buf, true)]
+				if !mutexBlockedInIce(string(buf)) {
+					fmt.Fprintf(os.Stderr, "HARNESS ERROR: no progress for %v and no goroutine is blocked inside ice\n%s\n", stallLimit, trimDump(string(buf)))
+					os.Exit(2)
+				}
+				fail = &Fail{Prop: prop, Oracle: "progress", Kind: "hang", Site: c.Scen,
+					Detail: fmt.Sprintf("no progress for %v while this case was executing (or being set up): a goroutine is blocked inside ice on a lock, semaphore or channel nobody will release - typically something leaked by an earlier failed operation\n%s", stallLimit, trimDump(string(buf)))}
+			}
 			rp := &Replay{Property: prop, Check: prop, Scenario: c.Scen, Seed: seed, Shard: shard, Case: c, Verdict: fail, Trace: "0", Minimal: false}
 			path := filepath.Join(outDir, fmt.Sprintf("%s-by%s-%s-%d-%d.json", prop, prop, c.Scen, seed, shard))
 			b, _ := json.MarshalIndent(rp, "", " ")
@@ -371,6 +397,7 @@ func RunShard(prop, tier string, seed uint64, shard, shards int, plan []PlanItem
 	if RaceBuild {
 		limit = 12 << 30
 	}
+	Heartbeat()
 	startMemoryWatchdog(limit, prop, seed, shard, outDir, st)
 	for _, item := range plan {
 		sc := Scenarios[item.Scen]
@@ -413,6 +440,7 @@ func RunShard(prop, tier string, seed uint64, shard, shards int, plan []PlanItem
 			c := sc.Gen(t, prop)
 			c.Scen = sc.Name
 			curCase.Store(c)
+			Heartbeat()
 			if CurrentCaseFile != "" {
 				// if the process dies (a fatal runtime error, a panic on a goroutine
 				// the code under test started), the orchestrator finds the case here
